@@ -90,6 +90,15 @@ class ProcessState:
     def restore(self):
         for o, saved in zip(self.objs, self.saved):
             cur = vars(o)
+            # memoised functions (functools.lru_cache / cache) start empty
+            for v in list(cur.values()):
+                f = getattr(v, "__func__", v)
+                clear = getattr(f, "cache_clear", None)
+                if callable(clear):
+                    try:
+                        clear()
+                    except Exception:  # noqa
+                        pass
             for k in [k for k in cur if k not in saved
                       and not (k.startswith("__") and k.endswith("__"))]:
                 try:
